@@ -17,8 +17,10 @@ import (
 // parked (VerifKeyState.waiters == R); then, released from a spin barrier at the same instant, one goroutine calls
 // ReleaseWrite (which admits the whole queue in one hand-off) and another cancels the contexts of all / half of the
 // readers.  Every reader's Acquire* must return (it was cancelled, or it fits once the writer has left).  Then:
-//   returned nil   => it holds: it is counted inside and releases;
-//   returned error => the error is its context's error and it must hold nothing.
+//
+//	returned nil   => it holds: it is counted inside and releases;
+//	returned error => the error is its context's error and it must hold nothing.
+//
 // Whatever the interleaving was, once every successful reader has released the key must be empty: VerifKeyState =
 // (0, 0, absent), VerifEntries = 0, and a fresh writer is admitted at once.  Only those end-state facts (true under
 // EVERY legal schedule) are reported.
@@ -136,7 +138,11 @@ func runBatchRound(m semap.SemMapper, ratio int, key interface{}, round int, see
 		}
 	}
 	br.cancelled = len(victims)
-	delay := rnd(4) * rnd(60)
+	delay := rnd(4) * rnd(60) // the cancellations start a little later ...
+	relDelay := 0
+	if rnd(3) == 0 { // ... or the release does
+		relDelay, delay = rnd(400), 0
+	}
 	var ready, goFlag int64
 	relDone := make(chan struct{})
 	canDone := make(chan struct{})
@@ -146,6 +152,9 @@ func runBatchRound(m semap.SemMapper, ratio int, key interface{}, round int, see
 		defer func() { relPanic = recover() }()
 		atomic.AddInt64(&ready, 1)
 		for atomic.LoadInt64(&goFlag) == 0 {
+		}
+		for i := 0; i < relDelay; i++ {
+			_ = atomic.LoadInt64(&ready)
 		}
 		m.ReleaseWrite(key, ww)
 	}()
@@ -277,7 +286,7 @@ func emitBatch(e *vh.Env, v int, maxRounds int, budget time.Duration) {
 			"key": keyStr(hit.key), "readers_parked_behind_the_writer": hit.readers, "contexts_cancelled_while_the_writer_released": hit.cancelled,
 			"readers_returned_nil_and_released": hit.okN, "readers_returned_context_error": hit.errN,
 			"after_all_released": fmt.Sprintf("held=%d waiters=%d present=%v entries=%d", hit.held, hit.waiters, hit.present, hit.entries),
-			"what": "ReleaseWrite (handing over to the whole queue) and the cancellations were let loose together; every reader that returned nil has released, yet the key is not empty"}
+			"what":               "ReleaseWrite (handing over to the whole queue) and the cancellations were let loose together; every reader that returned nil has released, yet the key is not empty"}
 		if hit.bad != "" {
 			desc["irregular"] = hit.bad
 		}
